@@ -184,6 +184,7 @@ def run_case(ns, mon, case):
             before_frozen = {i: opt_params[i].data.tobytes() for i in range(npar) if not active[i]}
             before_nograd = {i: opt_params[i].data.tobytes() for i in range(npar) if active[i] and grads[i] is None}
             meta = [(p.data.dtype, p.data.shape) for p in params]
+            grad_bytes = [None if p._grad is None else p._grad.tobytes() for p in params]
             try:
                 opt.step()
             except Exception as e:
@@ -207,6 +208,8 @@ def run_case(ns, mon, case):
                     data_ids[j] = id(p.data)
                 if (p.data.dtype, p.data.shape) != meta[j]:
                     viol.append(V(f"{kind}:parameter-dtype-or-shape-changed", f"parameter changed from {meta[j]} to {(p.data.dtype, p.data.shape)}", hp=hp))
+            if [None if p._grad is None else p._grad.tobytes() for p in params] != grad_bytes:
+                viol.append(V(f"{kind}:step-modified-gradient", "step() changed a parameter's .grad (gradients must survive a step until they are reset)", hp=hp))
             if snap(by) != before_by:
                 viol.append(V(f"{kind}:bystander-parameter-changed", "a parameter that was not given to the optimizer changed during step()", hp=hp))
             for i, b in before_frozen.items():
